@@ -6,6 +6,8 @@ holds and these proofs have to be redone, or it does not and the failing-input s
 -/
 import Paho.Gen.Fn
 import Paho.Model.Bytes
+import Paho.Model.Mid
+import Paho.Model.Props
 
 namespace Paho.FnEq
 open Paho Paho.Gen.Fn
@@ -210,5 +212,91 @@ theorem fn_vbiDecode (b : Bytes) : vbiDecode b = liftDec (vbiDec b) := by
   unfold vbiDecode vbiDec
   have := vbiDecode_loop_eq (b.length + 1) b 1 0 0 (by omega)
   simpa using this
+
+/-! ### `Client._mid_generate` (the critical section) -/
+
+theorem midNext_eq (last : Nat) : midNext last = if last + 1 = 65536 then 1 else last + 1 := by
+  unfold midNext
+  simp only [Gen.midIncr, Gen.midWrapCmp, Gen.midWrap, Gen.midReset, Cmp.evalNat, decide_eq_true_eq]
+
+/-- **`Client._mid_generate` as the source has it now = the model's `midNext`**: the value returned and the new
+`_last_mid`, for every `_last_mid` -/
+theorem fn_midGenerate (last : Nat) :
+    midGenerate (last : Int) = .ok (((midNext last : Nat) : Int), ((midNext last : Nat) : Int)) := by
+  rw [midNext_eq]
+  unfold midGenerate
+  by_cases h : last + 1 = 65536
+  · have : last = 65535 := by omega
+    subst this; rfl
+  · have h' : (((last : Int) + 1) == 65536) = false := by
+      rw [beq_eq_false_iff_ne]; omega
+    rw [if_neg h]
+    simp only [pure, Except.pure, h', Bool.false_eq_true, if_false]
+    push_cast
+    rfl
+
+/-! ### `SubscribeOptions.pack` / `unpack` -/
+
+theorem shl_nat (a k : Nat) : Py.shl (a : Int) k = .ok ((a <<< k : Nat) : Int) := by
+  simp [Py.shl, Nat.shiftLeft_eq]
+
+theorem shr_nat (a k : Nat) : Py.shr (a : Int) k = .ok ((a >>> k : Nat) : Int) := by
+  unfold Py.shr
+  rw [if_pos (Int.natCast_nonneg a), Nat.shiftRight_eq_div_pow]
+  congr 1
+
+/-- **`SubscribeOptions.pack` as the source has it now = the model's `SubOpts.pack`** (one byte, or AssertionError),
+for every options object with non-negative integer fields -/
+theorem fn_subOptsPack (o : SubOpts) :
+    subOptsPack (o.qos : Int) o.noLocal o.retainAsPublished (o.retainHandling : Int) = (o.pack).map (fun b => [b]) := by
+  obtain ⟨q, nl, rap, rh⟩ := o
+  unfold subOptsPack SubOpts.pack SubOpts.valid
+  simp only [bind, Except.bind, pure, Except.pure]
+  by_cases hrh : rh ≤ 2
+  · by_cases hq : q ≤ 2
+    · have hr3 : rh = 0 ∨ rh = 1 ∨ rh = 2 := by omega
+      have hq3 : q = 0 ∨ q = 1 ∨ q = 2 := by omega
+      rcases hr3 with rfl | rfl | rfl <;> rcases hq3 with rfl | rfl | rfl <;> cases nl <;> cases rap <;> rfl
+    · have hq' : ¬ (q ≤ 2) := hq
+      have h1 : (((q : Int) == 0) || ((q : Int) == 1) || ((q : Int) == 2)) = false := by simp; omega
+      have h2 : ((((rh : Int) == 0) || ((rh : Int) == 1) || ((rh : Int) == 2))) = true := by
+        have hr3 : rh = 0 ∨ rh = 1 ∨ rh = 2 := by omega
+        rcases hr3 with rfl | rfl | rfl <;> rfl
+      simp [h1, h2, hrh, hq', Except.map, throw, throwThe, MonadExceptOf.throw]
+  · have h2 : ((((rh : Int) == 0) || ((rh : Int) == 1) || ((rh : Int) == 2))) = false := by simp; omega
+    simp [h2, hrh, Except.map, throw, throwThe, MonadExceptOf.throw]
+
+/-- the model's decoded options read as the attribute values the Python method leaves behind, with its return value 1 -/
+def liftUnpack : Except Exc SubOpts → Except Exc (Int × Int × Bool × Bool × Int)
+  | .ok o => .ok (1, (o.qos : Int), o.noLocal, o.retainAsPublished, (o.retainHandling : Int))
+  | .error e => .error e
+
+/-- **`SubscribeOptions.unpack` as the source has it now = the model's `SubOpts.unpack`**: the four attributes it sets
+(whatever they were before), the return value 1, AssertionError for QoS 3 / retain handling 3, for every byte -/
+theorem fn_subOptsUnpack (q0 : Int) (nl0 rap0 : Bool) (rh0 : Int) (b : UInt8) (rest : Bytes) :
+    subOptsUnpack q0 nl0 rap0 rh0 (b :: rest) = liftUnpack (SubOpts.unpack b) := by
+  unfold subOptsUnpack SubOpts.unpack SubOpts.valid
+  simp only [bind, Except.bind, pure, Except.pure, Py.first]
+  have e3 : (3 : Int) = ((3 : Nat) : Int) := rfl
+  have e1 : (1 : Int) = ((1 : Nat) : Int) := rfl
+  rw [e3, e1]
+  simp only [shr_nat, band_nat]
+  have hr : (b.toNat >>> 4) &&& 3 ≤ 3 := Nat.and_le_right
+  have hq : b.toNat &&& 3 ≤ 3 := Nat.and_le_right
+  have ha : (b.toNat >>> 3) &&& 1 ≤ 1 := Nat.and_le_right
+  have hn : (b.toNat >>> 2) &&& 1 ≤ 1 := Nat.and_le_right
+  generalize (b.toNat >>> 4) &&& 3 = r at *
+  generalize b.toNat &&& 3 = q at *
+  generalize (b.toNat >>> 3) &&& 1 = a at *
+  generalize (b.toNat >>> 2) &&& 1 = n at *
+  have hr4 : r = 0 ∨ r = 1 ∨ r = 2 ∨ r = 3 := by omega
+  have hq4 : q = 0 ∨ q = 1 ∨ q = 2 ∨ q = 3 := by omega
+  have ha2 : a = 0 ∨ a = 1 := by omega
+  have hn2 : n = 0 ∨ n = 1 := by omega
+  rcases hr4 with rfl | rfl | rfl | rfl <;> rcases hq4 with rfl | rfl | rfl | rfl <;>
+    rcases ha2 with rfl | rfl <;> rcases hn2 with rfl | rfl <;> rfl
+
+theorem fn_subOptsUnpack_empty (q0 : Int) (nl0 rap0 : Bool) (rh0 : Int) :
+    subOptsUnpack q0 nl0 rap0 rh0 [] = .error .indexError := rfl
 
 end Paho.FnEq
